@@ -200,6 +200,7 @@ package schedule
 //@ at call s.rwMu.Lock havoc s.scheds, s.leftAfter
 //@ at call s.rwMu.Lock assume [monitor-invariant] wfComposite(s) && shrunkFromFront(s, old(s.scheds), old(s.leftAfter)) && imp(quiet(), len(s.scheds) == old(len(s.scheds)))
 //@ ensures wfComposite(s) && held(s.rwMu) == 0
+//@ at call s.startNext assert [the-next-part-starts-at-the-finish-time-of-the-drained-part] arg(currentFinishTime) == result_of(s.scheds[0].Next, 0) && !result_of(s.scheds[0].Next, 1)
 //@ ensures [exact-when-known-negative-only-when-unknown] result == compositeLeft(s)
 //@ ensures [parts-only-dropped-from-the-front] len(s.scheds) <= old(len(s.scheds))
 
